@@ -9,11 +9,28 @@ type nat =
 | O
 | S of nat
 
+(** val fst : ('a1 * 'a2) -> 'a1 **)
+
+let fst = function
+| (x, _) -> x
+
+(** val snd : ('a1 * 'a2) -> 'a2 **)
+
+let snd = function
+| (_, y) -> y
+
 (** val length : 'a1 list -> nat **)
 
 let rec length = function
 | [] -> O
 | _ :: l' -> S (length l')
+
+(** val app : 'a1 list -> 'a1 list -> 'a1 list **)
+
+let rec app l m =
+  match l with
+  | [] -> m
+  | a :: l1 -> a :: (app l1 m)
 
 (** val pred : nat -> nat **)
 
@@ -63,6 +80,13 @@ module Nat =
 
   let ltb n m =
     leb (S n) m
+
+  (** val iter : nat -> ('a1 -> 'a1) -> 'a1 -> 'a1 **)
+
+  let rec iter n f x =
+    match n with
+    | O -> x
+    | S n0 -> f (iter n0 f x)
  end
 
 (** val nth : nat -> 'a1 list -> 'a1 -> 'a1 **)
@@ -81,6 +105,12 @@ let rec nth n l default =
 let rec map f = function
 | [] -> []
 | a :: t -> (f a) :: (map f t)
+
+(** val flat_map : ('a1 -> 'a2 list) -> 'a1 list -> 'a2 list **)
+
+let rec flat_map f = function
+| [] -> []
+| x :: t -> app (f x) (flat_map f t)
 
 (** val fold_left : ('a1 -> 'a2 -> 'a1) -> 'a2 list -> 'a1 -> 'a1 **)
 
@@ -132,15 +162,19 @@ let want_eqb a b =
                   | WToFinish -> true
                   | _ -> false)
 
-type edge_info = { ei_ins : nat list; ei_cons : nat list; ei_pool : nat;
-                   ei_phony : bool }
+type gated = nat * nat option
+
+type edge_info = { ei_ins : gated list; ei_cons : gated list; ei_pool : 
+                   nat; ei_phony : bool; ei_ddprod : nat option;
+                   ei_ddouts : nat list }
 
 type graph = { g_edges : edge_info list; g_depths : nat list }
 
 (** val dummy_edge : edge_info **)
 
 let dummy_edge =
-  { ei_ins = []; ei_cons = []; ei_pool = O; ei_phony = false }
+  { ei_ins = []; ei_cons = []; ei_pool = O; ei_phony = false; ei_ddprod =
+    None; ei_ddouts = [] }
 
 (** val einfo : graph -> nat -> edge_info **)
 
@@ -152,15 +186,15 @@ let einfo g e =
 let n_edges g =
   length g.g_edges
 
-(** val ins : graph -> nat -> nat list **)
+(** val ddprod : graph -> nat -> nat option **)
 
-let ins g e =
-  (einfo g e).ei_ins
+let ddprod g e =
+  (einfo g e).ei_ddprod
 
-(** val cons_of : graph -> nat -> nat list **)
+(** val ddouts : graph -> nat -> nat list **)
 
-let cons_of g e =
-  (einfo g e).ei_cons
+let ddouts g e =
+  (einfo g e).ei_ddouts
 
 (** val pool : graph -> nat -> nat **)
 
@@ -207,69 +241,93 @@ type 'a res =
 
 type plan = { p_want : (nat -> want_t option); p_ready : nat list;
               p_delayed : nat list; p_use : (nat -> nat); p_wanted : 
-              nat; p_commands : nat; p_oready : (nat -> bool); p_tokens : 
-              nat }
+              nat; p_commands : nat; p_oready : (nat -> bool);
+              p_tokens : nat; p_loaded : (nat -> bool) }
 
 (** val set_want : plan -> (nat -> want_t option) -> plan **)
 
 let set_want p w =
   { p_want = w; p_ready = p.p_ready; p_delayed = p.p_delayed; p_use =
     p.p_use; p_wanted = p.p_wanted; p_commands = p.p_commands; p_oready =
-    p.p_oready; p_tokens = p.p_tokens }
+    p.p_oready; p_tokens = p.p_tokens; p_loaded = p.p_loaded }
 
 (** val set_ready : plan -> nat list -> plan **)
 
 let set_ready p r =
   { p_want = p.p_want; p_ready = r; p_delayed = p.p_delayed; p_use = p.p_use;
     p_wanted = p.p_wanted; p_commands = p.p_commands; p_oready = p.p_oready;
-    p_tokens = p.p_tokens }
+    p_tokens = p.p_tokens; p_loaded = p.p_loaded }
 
 (** val set_delayed : plan -> nat list -> plan **)
 
 let set_delayed p d =
   { p_want = p.p_want; p_ready = p.p_ready; p_delayed = d; p_use = p.p_use;
     p_wanted = p.p_wanted; p_commands = p.p_commands; p_oready = p.p_oready;
-    p_tokens = p.p_tokens }
+    p_tokens = p.p_tokens; p_loaded = p.p_loaded }
 
 (** val set_use : plan -> (nat -> nat) -> plan **)
 
 let set_use p u =
   { p_want = p.p_want; p_ready = p.p_ready; p_delayed = p.p_delayed; p_use =
     u; p_wanted = p.p_wanted; p_commands = p.p_commands; p_oready =
-    p.p_oready; p_tokens = p.p_tokens }
+    p.p_oready; p_tokens = p.p_tokens; p_loaded = p.p_loaded }
 
 (** val set_wanted : plan -> nat -> plan **)
 
 let set_wanted p n =
   { p_want = p.p_want; p_ready = p.p_ready; p_delayed = p.p_delayed; p_use =
     p.p_use; p_wanted = n; p_commands = p.p_commands; p_oready = p.p_oready;
-    p_tokens = p.p_tokens }
+    p_tokens = p.p_tokens; p_loaded = p.p_loaded }
 
 (** val set_commands : plan -> nat -> plan **)
 
 let set_commands p n =
   { p_want = p.p_want; p_ready = p.p_ready; p_delayed = p.p_delayed; p_use =
     p.p_use; p_wanted = p.p_wanted; p_commands = n; p_oready = p.p_oready;
-    p_tokens = p.p_tokens }
+    p_tokens = p.p_tokens; p_loaded = p.p_loaded }
 
 (** val set_oready : plan -> (nat -> bool) -> plan **)
 
 let set_oready p o =
   { p_want = p.p_want; p_ready = p.p_ready; p_delayed = p.p_delayed; p_use =
     p.p_use; p_wanted = p.p_wanted; p_commands = p.p_commands; p_oready = o;
-    p_tokens = p.p_tokens }
+    p_tokens = p.p_tokens; p_loaded = p.p_loaded }
 
 (** val set_tokens : plan -> nat -> plan **)
 
 let set_tokens p n =
   { p_want = p.p_want; p_ready = p.p_ready; p_delayed = p.p_delayed; p_use =
     p.p_use; p_wanted = p.p_wanted; p_commands = p.p_commands; p_oready =
-    p.p_oready; p_tokens = n }
+    p.p_oready; p_tokens = n; p_loaded = p.p_loaded }
+
+(** val set_loaded : plan -> (nat -> bool) -> plan **)
+
+let set_loaded p l =
+  { p_want = p.p_want; p_ready = p.p_ready; p_delayed = p.p_delayed; p_use =
+    p.p_use; p_wanted = p.p_wanted; p_commands = p.p_commands; p_oready =
+    p.p_oready; p_tokens = p.p_tokens; p_loaded = l }
+
+(** val active : plan -> gated -> bool **)
+
+let active p x =
+  match snd x with
+  | Some b -> p.p_loaded b
+  | None -> true
+
+(** val ins_at : graph -> plan -> nat -> nat list **)
+
+let ins_at g p e =
+  map fst (filter (active p) (einfo g e).ei_ins)
+
+(** val cons_at : graph -> plan -> nat -> nat list **)
+
+let cons_at g p e =
+  map fst (filter (active p) (einfo g e).ei_cons)
 
 (** val all_inputs_ready : graph -> plan -> nat -> bool **)
 
 let all_inputs_ready g p e =
-  forallb p.p_oready (ins g e)
+  forallb p.p_oready (ins_at g p e)
 
 (** val more_to_do : plan -> bool **)
 
@@ -349,11 +407,259 @@ let release_token cfg holds_slot p =
     else Some p
   | None -> Some p
 
-(** val edge_finished :
-    nat -> graph -> config -> nat list -> nat -> bool -> bool -> plan -> plan
-    res **)
+(** val count_if : (nat -> bool) -> nat list -> nat **)
 
-let rec edge_finished fuel g cfg prio e success holds_slot p =
+let count_if f l =
+  length (filter f l)
+
+(** val is_wanted : (nat -> want_t option) -> nat -> bool **)
+
+let is_wanted w e =
+  match w e with
+  | Some w0 -> (match w0 with
+                | WNothing -> false
+                | _ -> true)
+  | None -> false
+
+(** val npwf : graph -> (nat -> want_t option) -> nat **)
+
+let npwf g w =
+  count_if (fun e -> (&&) (is_wanted w e) (negb (phony g e))) (all_edges g)
+
+(** val in_want : plan -> nat -> bool **)
+
+let in_want p e =
+  match p.p_want e with
+  | Some _ -> true
+  | None -> false
+
+type load = { ld_dirty : nat list; ld_ready : nat list;
+              ld_added : (nat * bool) list; ld_walk : nat list }
+
+(** val edge_wanted : graph -> nat -> plan -> plan **)
+
+let edge_wanted g e p =
+  let p1 = set_wanted p (S p.p_wanted) in
+  if phony g e then p1 else set_commands p1 (S p1.p_commands)
+
+(** val add_new : nat list -> nat list -> nat list **)
+
+let add_new l acc =
+  fold_left (fun a c -> if memb c a then a else app a (c :: [])) l acc
+
+(** val dep_step : graph -> plan -> nat list -> nat list **)
+
+let dep_step g p ds =
+  add_new (filter (in_want p) (flat_map (cons_at g p) ds)) ds
+
+(** val dependents : graph -> plan -> nat -> nat list **)
+
+let dependents g p e =
+  Nat.iter (n_edges g) (dep_step g p)
+    (add_new (filter (in_want p) (ddouts g e)) [])
+
+(** val op_dirty : graph -> nat list -> nat -> plan -> plan option **)
+
+let op_dirty g deps x p =
+  match p.p_want x with
+  | Some w ->
+    (match w with
+     | WNothing ->
+       if (&&) ((&&) (Nat.ltb x (n_edges g)) (memb x deps))
+            (negb (p.p_oready x))
+       then Some
+              (edge_wanted g x (set_want p (upd p.p_want x (Some WToStart))))
+       else None
+     | _ -> None)
+  | None -> None
+
+(** val op_ready : graph -> nat -> plan -> plan option **)
+
+let op_ready g x p =
+  match p.p_want x with
+  | Some _ -> None
+  | None ->
+    if (&&) ((&&) (Nat.ltb x (n_edges g)) (negb (p.p_oready x)))
+         (all_inputs_ready g p x)
+    then Some (set_oready p (upd p.p_oready x true))
+    else None
+
+(** val op_rescan : graph -> nat -> plan -> plan **)
+
+let op_rescan g x p =
+  match p.p_want x with
+  | Some w ->
+    (match w with
+     | WNothing ->
+       if (&&) ((&&) (Nat.ltb x (n_edges g)) (negb (p.p_oready x)))
+            (all_inputs_ready g p x)
+       then set_oready p (upd p.p_oready x true)
+       else p
+     | _ -> p)
+  | None -> p
+
+(** val op_add : graph -> (nat * bool) -> plan -> plan option **)
+
+let op_add g xw p =
+  let x = fst xw in
+  (match p.p_want x with
+   | Some _ -> None
+   | None ->
+     if (&&) (Nat.ltb x (n_edges g)) (negb (p.p_oready x))
+     then Some
+            (if snd xw
+             then edge_wanted g x
+                    (set_want p (upd p.p_want x (Some WToStart)))
+             else set_want p (upd p.p_want x (Some WNothing)))
+     else None)
+
+(** val fold_opt :
+    ('a1 -> plan -> plan option) -> 'a1 list -> plan -> plan option **)
+
+let rec fold_opt f l p =
+  match l with
+  | [] -> Some p
+  | x :: t -> (match f x p with
+               | Some p' -> fold_opt f t p'
+               | None -> None)
+
+(** val chk_closed : graph -> plan -> bool **)
+
+let chk_closed g p =
+  forallb (fun x ->
+    (||) (negb (in_want p x))
+      (forallb (fun i -> (||) (p.p_oready i) (in_want p i)) (ins_at g p x)))
+    (all_edges g)
+
+(** val chk_sched : graph -> plan -> bool **)
+
+let chk_sched g p =
+  forallb (fun x ->
+    match p.p_want x with
+    | Some w -> (match w with
+                 | WToFinish -> all_inputs_ready g p x
+                 | _ -> true)
+    | None -> true) (all_edges g)
+
+(** val chk_oclosed : graph -> plan -> bool **)
+
+let chk_oclosed g p =
+  forallb (fun x -> (||) (negb (p.p_oready x)) (all_inputs_ready g p x))
+    (all_edges g)
+
+(** val chk_walk : graph -> plan -> plan -> nat list -> bool **)
+
+let chk_walk g p0 p walk =
+  forallb (fun x ->
+    match p.p_want x with
+    | Some w ->
+      (match w with
+       | WToFinish -> true
+       | _ ->
+         (||)
+           ((||) ((||) (negb (all_inputs_ready g p x)) (memb x walk))
+             ((&&) (all_inputs_ready g p0 x) (in_want p0 x)))
+           (existsb (fun i ->
+             (&&) (p.p_oready i)
+               (match p.p_want i with
+                | Some w0 -> (match w0 with
+                              | WNothing -> true
+                              | _ -> false)
+                | None -> false)) (ins_at g p x)))
+    | None -> true) (all_edges g)
+
+(** val is_nothing : want_t option -> bool **)
+
+let is_nothing = function
+| Some w0 -> (match w0 with
+              | WNothing -> true
+              | _ -> false)
+| None -> false
+
+(** val chk_evol : graph -> load -> plan -> plan -> bool **)
+
+let chk_evol g l p0 p =
+  (&&)
+    ((&&)
+      ((&&)
+        (forallb (fun x ->
+          (&&)
+            ((&&)
+              (match p0.p_want x with
+               | Some a ->
+                 (match p.p_want x with
+                  | Some b ->
+                    (||) (want_eqb a b)
+                      ((&&) (want_eqb a WNothing) (want_eqb b WToStart))
+                  | None -> false)
+               | None ->
+                 (match p.p_want x with
+                  | Some b ->
+                    (&&)
+                      ((&&) (negb (want_eqb b WToFinish))
+                        (negb (p.p_oready x)))
+                      ((||) (want_eqb b WToStart)
+                        (existsb (fun a ->
+                          (&&) (Nat.eqb (fst a) x) (negb (snd a))) l.ld_added))
+                  | None -> true))
+              ((||) ((||) (negb (p.p_oready x)) (is_nothing (p.p_want x)))
+                (negb (in_want p x))))
+            ((||)
+              ((||) ((||) (negb (p.p_oready x)) (p0.p_oready x))
+                (is_nothing (p0.p_want x))) (memb x l.ld_ready)))
+          (all_edges g))
+        (Nat.eqb p.p_wanted (count_if (is_wanted p.p_want) (all_edges g))))
+      (Nat.eqb (add p.p_commands (npwf g p0.p_want))
+        (add p0.p_commands (npwf g p.p_want))))
+    (Nat.leb p0.p_commands p.p_commands)
+
+(** val bound : graph -> plan -> nat -> nat list **)
+
+let bound g p e =
+  filter (fun b ->
+    (&&) (match ddprod g b with
+          | Some e' -> Nat.eqb e' e
+          | None -> false) (negb (p.p_loaded b))) (all_edges g)
+
+(** val apply_load :
+    graph -> (nat -> load option) -> nat -> plan -> (plan * nat list) res **)
+
+let apply_load g loads e p =
+  match bound g p e with
+  | [] -> Ok (p, [])
+  | n :: l ->
+    (match loads e with
+     | Some l0 ->
+       let p1 = set_loaded p (fun b -> (||) (memb b (n :: l)) (p.p_loaded b))
+       in
+       let deps = dependents g p1 e in
+       (match fold_opt (op_dirty g deps) l0.ld_dirty p1 with
+        | Some p2 ->
+          (match fold_opt (op_ready g) l0.ld_ready p2 with
+           | Some p3 ->
+             let p4 =
+               Nat.iter (n_edges g) (fun pp ->
+                 fold_left (fun a x -> op_rescan g x a) deps pp) p3
+             in
+             (match fold_opt (op_add g) l0.ld_added p4 with
+              | Some p5 ->
+                if (&&)
+                     ((&&)
+                       ((&&) ((&&) (chk_evol g l0 p p5) (chk_closed g p5))
+                         (chk_sched g p5)) (chk_oclosed g p5))
+                     (chk_walk g p p5 l0.ld_walk)
+                then Ok (p5, l0.ld_walk)
+                else Forbidden
+              | None -> Forbidden)
+           | None -> Forbidden)
+        | None -> Forbidden)
+     | None -> Forbidden)
+
+(** val edge_finished :
+    nat -> graph -> config -> nat list -> (nat -> load option) -> nat -> bool
+    -> bool -> plan -> plan res **)
+
+let rec edge_finished fuel g cfg prio loads e success holds_slot p =
   match fuel with
   | O -> OutOfFuel
   | S fuel' ->
@@ -389,16 +695,21 @@ let rec edge_finished fuel g cfg prio e success holds_slot p =
                          (set_want (set_wanted p3 n) (upd p3.p_want e None))
                          (upd p3.p_oready e true)
                      in
-                     fold_res (fun d pp ->
-                       match pp.p_want d with
-                       | Some wd ->
-                         if all_inputs_ready g pp d
-                         then if want_eqb wd WNothing
-                              then edge_finished fuel' g cfg prio d true
-                                     false pp
-                              else schedule_work g prio d pp
-                         else Ok pp
-                       | None -> Ok pp) (cons_of g e) p4
+                     (match apply_load g loads e p4 with
+                      | Ok a ->
+                        let (p5, walk) = a in
+                        fold_res (fun d pp ->
+                          match pp.p_want d with
+                          | Some wd ->
+                            if all_inputs_ready g pp d
+                            then if want_eqb wd WNothing
+                                 then edge_finished fuel' g cfg prio loads d
+                                        true false pp
+                                 else schedule_work g prio d pp
+                            else Ok pp
+                          | None -> Ok pp) (app walk (cons_at g p5 e)) p5
+                      | Forbidden -> Forbidden
+                      | OutOfFuel -> OutOfFuel)
                    | None -> Forbidden)
            | None -> Forbidden)
         | None -> Forbidden)
@@ -524,9 +835,10 @@ let in_build s =
   | PhBuild -> true
   | _ -> false
 
-(** val step_res : graph -> config -> state -> event -> state res **)
+(** val step_res :
+    graph -> config -> (nat -> load option) -> state -> event -> state res **)
 
-let step_res g cfg s ev =
+let step_res g cfg loads s ev =
   let p = s.s_plan in
   (match ev with
    | EvStart (e, prio) ->
@@ -544,8 +856,15 @@ let step_res g cfg s ev =
             | None -> p1
           in
           if phony g e
-          then (match edge_finished (plan_fuel g) g cfg prio e true true p2 with
-                | Ok p3 -> Ok (set_plan s p3)
+          then (match edge_finished (plan_fuel g) g cfg prio loads e true
+                        true p2 with
+                | Ok p3 ->
+                  Ok { s_plan = p3; s_running = s.s_running; s_pending =
+                    s.s_pending; s_fa = s.s_fa; s_exit = s.s_exit; s_total =
+                    (add s.s_total (sub p3.p_commands p2.p_commands));
+                    s_started = s.s_started; s_finished = s.s_finished;
+                    s_failed = s.s_failed; s_waiting = s.s_waiting; s_phase =
+                    s.s_phase }
                 | Forbidden -> Forbidden
                 | OutOfFuel -> OutOfFuel)
           else Ok { s_plan = p2; s_running = (e :: s.s_running); s_pending =
@@ -601,15 +920,18 @@ let step_res g cfg s ev =
              let run' = rem e s.s_running in
              let fin' = S s.s_finished in
              if Nat.eqb code O
-             then (match edge_finished (plan_fuel g) g cfg prio e true true p with
+             then (match edge_finished (plan_fuel g) g cfg prio loads e true
+                           true p with
                    | Ok p' ->
                      Ok { s_plan = p'; s_running = run'; s_pending = pend;
-                       s_fa = s.s_fa; s_exit = s.s_exit; s_total = s.s_total;
+                       s_fa = s.s_fa; s_exit = s.s_exit; s_total =
+                       (add s.s_total (sub p'.p_commands p.p_commands));
                        s_started = s.s_started; s_finished = fin'; s_failed =
                        s.s_failed; s_waiting = false; s_phase = s.s_phase }
                    | Forbidden -> Forbidden
                    | OutOfFuel -> OutOfFuel)
-             else (match edge_finished (plan_fuel g) g cfg prio e false true p with
+             else (match edge_finished (plan_fuel g) g cfg prio loads e false
+                           true p with
                    | Ok p' ->
                      Ok { s_plan = p'; s_running = run'; s_pending = pend;
                        s_fa = (pred s.s_fa); s_exit = code; s_total =
@@ -664,20 +986,23 @@ let step_res g cfg s ev =
         else Forbidden
       | PhExited -> Forbidden))
 
-(** val step : graph -> config -> state -> event -> state option **)
+(** val step :
+    graph -> config -> (nat -> load option) -> state -> event -> state option **)
 
-let step g cfg s ev =
-  match step_res g cfg s ev with
+let step g cfg loads s ev =
+  match step_res g cfg loads s ev with
   | Ok s' -> Some s'
   | _ -> None
 
-(** val accepts : graph -> config -> state -> event list -> state option **)
+(** val accepts :
+    graph -> config -> (nat -> load option) -> state -> event list -> state
+    option **)
 
-let rec accepts g cfg s = function
+let rec accepts g cfg loads s = function
 | [] -> Some s
 | ev :: t ->
-  (match step g cfg s ev with
-   | Some s' -> accepts g cfg s' t
+  (match step g cfg loads s ev with
+   | Some s' -> accepts g cfg loads s' t
    | None -> None)
 
 type snapshot = { sn_want : (nat -> want_t option);
@@ -689,7 +1014,7 @@ type snapshot = { sn_want : (nat -> want_t option);
 let snap_plan sn =
   { p_want = sn.sn_want; p_ready = []; p_delayed = []; p_use = (fun _ -> O);
     p_wanted = sn.sn_wanted; p_commands = sn.sn_commands; p_oready =
-    sn.sn_oready; p_tokens = O }
+    sn.sn_oready; p_tokens = O; p_loaded = (fun _ -> false) }
 
 (** val init_state : graph -> config -> nat list -> snapshot -> state **)
 
@@ -700,24 +1025,28 @@ let init_state g cfg prio sn =
     s_phase = PhBuild }
 
 (** val run :
-    graph -> config -> nat list -> snapshot -> event list -> state option **)
+    graph -> config -> (nat -> load option) -> nat list -> snapshot -> event
+    list -> state option **)
 
-let run g cfg prio sn evs =
-  accepts g cfg (init_state g cfg prio sn) evs
+let run g cfg loads prio sn evs =
+  accepts g cfg loads (init_state g cfg prio sn) evs
 
-(** val count_if : (nat -> bool) -> nat list -> nat **)
+(** val gated_eqb : gated -> gated -> bool **)
 
-let count_if f l =
-  length (filter f l)
+let gated_eqb a b =
+  (&&) (Nat.eqb (fst a) (fst b))
+    (match snd a with
+     | Some x -> (match snd b with
+                  | Some y -> Nat.eqb x y
+                  | None -> false)
+     | None -> (match snd b with
+                | Some _ -> false
+                | None -> true))
 
-(** val is_wanted : (nat -> want_t option) -> nat -> bool **)
+(** val memg : gated -> gated list -> bool **)
 
-let is_wanted w e =
-  match w e with
-  | Some w0 -> (match w0 with
-                | WNothing -> false
-                | _ -> true)
-  | None -> false
+let memg x l =
+  existsb (gated_eqb x) l
 
 (** val wf_graph_b : graph -> (nat -> nat) -> bool **)
 
@@ -725,19 +1054,23 @@ let wf_graph_b g rank =
   forallb (fun e ->
     (&&)
       (forallb (fun i ->
-        (&&) ((&&) (Nat.ltb i (n_edges g)) (Nat.ltb (rank i) (rank e)))
-          (memb e (cons_of g i))) (ins g e))
-      (forallb (fun d -> (&&) (Nat.ltb d (n_edges g)) (memb e (ins g d)))
-        (cons_of g e))) (all_edges g)
+        (&&)
+          ((&&) (Nat.ltb (fst i) (n_edges g))
+            (Nat.ltb (rank (fst i)) (rank e)))
+          (memg (e, (snd i)) (einfo g (fst i)).ei_cons)) (einfo g e).ei_ins)
+      (forallb (fun d ->
+        (&&) (Nat.ltb (fst d) (n_edges g))
+          (memg (e, (snd d)) (einfo g (fst d)).ei_ins)) (einfo g e).ei_cons))
+    (all_edges g)
 
 (** val wf_snap_b : graph -> snapshot -> bool **)
 
 let wf_snap_b g sn =
+  let ins = ins_at g (snap_plan sn) in
   (&&)
     ((&&)
       (forallb (fun e ->
-        (&&)
-          (if sn.sn_oready e then forallb sn.sn_oready (ins g e) else true)
+        (&&) (if sn.sn_oready e then forallb sn.sn_oready (ins e) else true)
           (match sn.sn_want e with
            | Some w ->
              (&&)
@@ -747,9 +1080,9 @@ let wf_snap_b g sn =
                    (||) (sn.sn_oready i)
                      (match sn.sn_want i with
                       | Some _ -> true
-                      | None -> false)) (ins g e)))
+                      | None -> false)) (ins e)))
                (if want_eqb w WNothing
-                then negb (forallb sn.sn_oready (ins g e))
+                then negb (forallb sn.sn_oready (ins e))
                 else true)
            | None -> true)) (all_edges g))
       (Nat.eqb sn.sn_wanted (count_if (is_wanted sn.sn_want) (all_edges g))))
@@ -763,10 +1096,10 @@ let wf_cfg_b cfg =
   (&&) (Nat.ltb O cfg.c_j) (Nat.ltb O cfg.c_k)
 
 (** val auto_phony :
-    nat -> graph -> config -> nat list -> nat list -> state -> event
-    list * state **)
+    nat -> graph -> config -> (nat -> load option) -> nat list -> nat list ->
+    state -> event list * state **)
 
-let rec auto_phony fuel g cfg prio allowed s =
+let rec auto_phony fuel g cfg loads prio allowed s =
   match fuel with
   | O -> ([], s)
   | S fuel' ->
@@ -774,9 +1107,9 @@ let rec auto_phony fuel g cfg prio allowed s =
              allowed with
      | [] -> ([], s)
      | e :: _ ->
-       (match step g cfg s (EvStart (e, prio)) with
+       (match step g cfg loads s (EvStart (e, prio)) with
         | Some s' ->
-          let (evs, s'') = auto_phony fuel' g cfg prio allowed s' in
+          let (evs, s'') = auto_phony fuel' g cfg loads prio allowed s' in
           (((EvStart (e, prio)) :: evs), s'')
         | None -> ([], s)))
 
